@@ -6,10 +6,11 @@ func Gen(t *rapid.T) *Case {
 	c := &Case{
 		Before: rapid.Bool().Draw(t, "before"), BeforeCtx: rapid.Bool().Draw(t, "beforeCtx"),
 		After: rapid.Bool().Draw(t, "after"), AfterCtx: rapid.Bool().Draw(t, "afterCtx"),
-		Setters: rapid.IntRange(0, 3).Draw(t, "setters") == 0,
-		Obs:     rapid.IntRange(0, 2).Draw(t, "obs") == 0,
-		ObsOTel: rapid.Bool().Draw(t, "obsOTel"),
-		Store:   rapid.SampledFrom([]string{"", "", "", "memory", "honour", "honour", "failing"}).Draw(t, "store"),
+		Setters:  rapid.IntRange(0, 3).Draw(t, "setters") == 0,
+		Obs:      rapid.IntRange(0, 2).Draw(t, "obs") == 0,
+		ObsOTel:  rapid.Bool().Draw(t, "obsOTel"),
+		NilUnset: rapid.IntRange(0, 2).Draw(t, "nilUnset") == 0,
+		Store:    rapid.SampledFrom([]string{"", "", "", "memory", "honour", "honour", "failing"}).Draw(t, "store"),
 	}
 	n := rapid.IntRange(0, 8).Draw(t, "nh")
 	cancelK := -1
